@@ -428,6 +428,81 @@ func checkC02Layout(c *Check, p *Program) {
 		}
 	}
 	c.Floor(rule, "Pack/Unpack pairs compared item by item", nCmp, 12)
+	// byte-copy types: Pack is copy(buffer, X), Unpack copies the whole input into the same X
+	nCopy := 0
+	for _, pt := range declaredPackTypes(p) {
+		un := methodOf(p, pt.nt, "Unpack")
+		if un == nil || len(un.Blocks) == 0 {
+			continue
+		}
+		tn := typeName(pt.nt)
+		pps := runEncoder(p, pt.pack)
+		if len(pps) != 1 || len(pps[0].writes) != 1 || pps[0].writes[0].kind != "seg" {
+			continue
+		}
+		w := pps[0].writes[0]
+		if o, ok := w.off.IsConst(); !ok || o != 0 {
+			continue
+		}
+		nCopy++
+		// decoder: every successful return reports uint(copy(dst, data)) with dst stored into the same field / receiver
+		in := inputParam(un)
+		okU, why := false, "no copy of the whole input found"
+		instrsOf(un, func(x ssa.Instruction) {
+			call, isC := x.(*ssa.Call)
+			if !isC || builtinName(call) != "copy" || call.Common().Args[1] != ssa.Value(in) {
+				return
+			}
+			dst := call.Common().Args[0]
+			// dst has room for the whole input: make([]byte, len(data)) on the path where the old buffer is shorter
+			room := false
+			check := func(v ssa.Value) bool {
+				if mk, isMk := v.(*ssa.MakeSlice); isMk {
+					if lc, isL := stripAllConv(mk.Len).(*ssa.Call); isL && builtinName(lc) == "len" && lc.Common().Args[0] == ssa.Value(in) {
+						return true
+					}
+				}
+				return false
+			}
+			if check(dst) {
+				room = true
+			}
+			if ph, isPhi := dst.(*ssa.Phi); isPhi {
+				room = true
+				for i, e := range ph.Edges {
+					if check(e) {
+						continue
+					}
+					// the kept buffer is at least as long as the input on this edge
+					pred := ph.Block().Preds[i]
+					fs := append(factsAt(pred), edgeFacts(pred, ph.Block())...)
+					if !anyFact(fs, func(f Cmp) bool {
+						lx, isLx := stripAllConv(f.X).(*ssa.Call)
+						ly, isLy := stripAllConv(f.Y).(*ssa.Call)
+						return isLx && isLy && builtinName(lx) == "len" && builtinName(ly) == "len" && lx.Common().Args[0] == e && ly.Common().Args[0] == ssa.Value(in) && (f.Op == token.GEQ || f.Op == token.GTR)
+					}) {
+						room = false
+					}
+				}
+			}
+			if f := loadedField(dst); f != nil {
+				// copy(body.Data, data) after body.Data was (re)allocated when too short
+				room = false
+				instrsOf(un, func(y ssa.Instruction) {
+					if st, isSt := y.(*ssa.Store); isSt && fieldOfAddr(st.Addr) == f && check(st.Val) {
+						room = true
+					}
+				})
+			}
+			if room {
+				okU, why = true, ""
+			} else {
+				why = "the destination of the copy may be shorter than the input: the tail of the payload is dropped"
+			}
+		})
+		c.Decide(okU, rule, tn+" byte-copy decoder takes the whole input", p.Pos(un.Pos()), "copy(dst, data) with len(dst) >= len(data)", why)
+	}
+	c.Floor(rule, "byte-copy Pack/Unpack pairs", nCopy, 4)
 	// the decoder can only accept "the whole encoding" if every encoder writes
 	// exactly the Size() it reports (the contract C15 proves; re-judged here
 	// because a Size/Pack disagreement shifts every later field on decode)
